@@ -17,6 +17,7 @@ for p in sorted(glob.glob("props/C*.json")):
 print(" ".join(ms))
 PY
 )
-(cd lean && lake build $mods drv) || echo "setup: lake build reported errors (checks will report them per property)"
-(cd harness && go build -tags verif -o ../.work/bin/vh . ) || echo "setup: harness build failed (checks will report it)"
+drvs=$(ls lean/ShVerif/Driver/ | sed -n "s/^\(C[0-9]*\)\.lean$/drv_\1/p" | tr "\n" " ")
+(cd lean && lake build $mods $drvs) || echo "setup: lake build reported errors (checks will report them per property)"
+(cd harness && go build -tags verif,all -o ../.work/bin/vh . ) || echo "setup: harness build failed (checks will report it)"
 echo "setup done"
